@@ -885,6 +885,82 @@ def suite_route(ctx):
     return bad
 
 
+def suite_estimate(ctx):
+    """estimate_gridding_opts: the estimated `properties` are, in the order
+    construct_mesh documents ([source, x-, x+, y-, y+, z-, z+]), the property
+    at the centre and the lowest conductivity of each outermost layer."""
+    import emg3d
+    rng = ctx.nprng('estimate')
+    bad = []
+    for t in range(12 if ctx.thorough else 6):
+        shp = tuple(int(rng.integers(4, 8)) for _ in range(3))
+        hs = [rng.uniform(50., 200., n) for n in shp]
+        grid = emg3d.TensorMesh(hs, (-300., -250., -400.))
+        mapping = MAPS[t % 6]
+        mp = getattr(emg3d.maps, 'Map'+mapping)()
+        comps = [['x'], ['x', 'y'], ['x', 'z'], ['x', 'y', 'z']][t % 4]
+        sig = {}
+        for d in comps:
+            a = 10.0**rng.uniform(-1, 1, shp)
+            # six faces with their own level (and variation within a face)
+            for k, (sl, lvl) in enumerate([
+                    ((0, slice(None), slice(None)), 1e-3),
+                    ((-1, slice(None), slice(None)), 3e-3),
+                    ((slice(None), 0, slice(None)), 1e-2),
+                    ((slice(None), -1, slice(None)), 3e-2),
+                    ((slice(None), slice(None), 0), 1e2),
+                    ((slice(None), slice(None), -1), 1e-6)]):
+                a[sl] = lvl*10.0**rng.uniform(0, 0.3, a[sl].shape)
+            sig[d] = a
+        with warnings.catch_warnings():
+            warnings.simplefilter('ignore')
+            model = emg3d.Model(grid, mapping=mapping, **{
+                'property_'+d: mp.forward(v.copy()) for d, v in sig.items()})
+            src = emg3d.TxElectricDipole(
+                (float(grid.nodes_x[2])+5., float(grid.nodes_y[1])+7.,
+                 float(grid.nodes_z[2])+3., 0., 0.))
+            survey = emg3d.Survey(
+                sources=src, receivers=emg3d.RxElectricPoint(
+                    (float(grid.nodes_x[-2])-5., float(grid.nodes_y[-2])-5.,
+                     float(grid.nodes_z[2])+3., 0., 0.)), frequencies=1.0)
+            try:
+                go = emg3d.meshes.estimate_gridding_opts({}, model, survey)
+            except Exception as e:      # noqa
+                bad.append(('raised', str(e)[:80]))
+                continue
+
+        def low(sl):
+            return min(float(np.min(v[sl])) for v in sig.values())
+        cen = go['center']
+        ic = [int(np.argmin(np.abs(n - c))) for n, c in zip(
+            (grid.nodes_x, grid.nodes_y, grid.nodes_z), cen)]
+        exp_sig = [low((ic[0], ic[1], ic[2])),
+                   low((0, slice(None), slice(None))),
+                   low((-1, slice(None), slice(None))),
+                   low((slice(None), 0, slice(None))),
+                   low((slice(None), -1, slice(None))),
+                   low((slice(None), slice(None), 0)),
+                   low((slice(None), slice(None), -1))]
+        got_sig = [float(mp.backward(np.array(float(v))))
+                   for v in go['properties']]
+        if len(got_sig) != 7 or not np.allclose(got_sig, exp_sig, rtol=1e-9):
+            bad.append((mapping, comps, got_sig, exp_sig))
+            ctx.violation(
+                'estimated-properties-order',
+                f'estimate_gridding_opts ({mapping}, components {comps}): '
+                f'properties correspond to conductivities '
+                f'{[float(f"{v:.4g}") for v in got_sig]}, documented '
+                f'[centre, x-, x+, y-, y+, z-, z+] = '
+                f'{[float(f"{v:.4g}") for v in exp_sig]}',
+                {'mapping': mapping, 'components': comps})
+        ctx.count(key=('estimate', t, mapping, tuple(comps)))
+    ctx.oblige('monitor: estimate_gridding_opts returns the properties in the '
+               'documented order [centre, x-, x+, y-, y+, z-, z+], each the '
+               'lowest conductivity of its outermost layer', 'monitor',
+               not bad, str(bad[:1])[:400])
+    return bad
+
+
 def suite_goodmg(ctx):
     import emg3d
     lines, got = [], []
@@ -915,7 +991,8 @@ def run(ctx):
         'apply to them all the same',
     ]
     b = []
-    for s in (suite_exact, suite_goodmg, suite_oaw, suite_post, suite_route):
+    for s in (suite_exact, suite_goodmg, suite_oaw, suite_post, suite_route,
+              suite_estimate):
         b += s(ctx) or []
     if b and not ctx.violations:
         ctx.violation('model-correspondence-broken',
